@@ -1,14 +1,26 @@
 (* EncArm.v — L1: mirror of src/injector_core/patch_arm.rs.  [ra]/[rt] = the scratch register of the
-   ARM-state / Thumb-state sequence (the pinned tree uses r9 / r7). *)
+   ARM-state / Thumb-state sequence (the pinned tree uses r9 / r7; the repaired one r12 / r12). *)
 From Inj Require Import Base Os.
 
 Definition a32_ldr (ra:Z) : Z := 0xE51F0000 + ra * 4096.        (* ldr ra, [pc, #-0] *)
 Definition a32_bx (ra:Z) : Z := 0xE12FFF10 + ra.                (* bx ra *)
 Definition t16_ldr_bx (rt:Z) : Z := (0x4700 + rt * 8) * 65536 + (0x4800 + rt * 256).   (* ldr rt,[pc,#0] ; bx rt   as one little-endian u32 *)
 
+(* the Thumb-2 sequence of the repaired code: ldr.w rt,[pc,#4] (halfwords F8DF, rt<<12|4) ; bx rt ; mov r8,r8 -- as two little-endian u32 *)
+Definition t32_ldr_w (rt:Z) : Z := (rt * 4096 + 4) * 65536 + 0xF8DF.
+Definition t16_bx_nop (rt:Z) : Z := 0x46C0 * 65536 + (0x4700 + rt * 8).
+
+(* [rt] < 8: the pinned Thumb sequence (16-bit ldr rt,[pc,#0] ; bx rt, with a leading NOP when the entry is 2 mod 4);
+   [rt] >= 8 (the repaired code uses r12 = ip): ldr.w rt,[pc,#4] ; bx rt ; then  nop ; .word target  when the entry is 0 mod 4,
+   .word target ; nop  when it is 2 mod 4 (Align(PC,4) is then 2 bytes lower, so the literal directly follows the bx) *)
 Definition arm_patch (ra rt:Z) (src target:Z) : Z * list Z :=
   let is_thumb := Z.odd src in
   let src_ptr := if is_thumb then (src mod W32 - 1) mod W32 else src in
+  if is_thumb && (8 <=? rt) then
+    let patch := flat_map (le_bytes 4) [t32_ldr_w rt; t16_bx_nop rt; target mod W32] in
+    (* patch.copy_within(8..12, 6); patch[10] = 0xC0; patch[11] = 0x46 *)
+    (src_ptr, if negb (src_ptr mod 4 =? 0) then firstn 6 patch ++ skipn 8 patch ++ [0xC0; 0x46] else patch)
+  else
   let instrs := if is_thumb then [t16_ldr_bx rt; target mod W32; 0] else [a32_ldr ra; a32_bx ra; target mod W32] in
   let patch := flat_map (le_bytes 4) instrs in
   (* patch.rotate_right(2); patch[0] = 0xC0; patch[1] = 0x46 *)
